@@ -721,7 +721,16 @@ pub fn gen_facts(r: &mut Prng, cfg: &GenCfg) -> FactSet {
 
     // annotations
     let mk_recs = |r: &mut Prng, kind: Kind, maxn: usize| -> Vec<Rec> {
-        let nrec = if maxn == 0 { 0 } else if maxn >= 40 { r.urange(maxn * 3 / 4, maxn) } else { r.urange(0, maxn) };
+        let nrec = if maxn == 0 {
+            0
+        } else if maxn >= 256 && r.chance(1, 2) {
+            // exactly at / around the one-byte boundary of a count
+            *r.pick(&[255usize, 256, 256, 257])
+        } else if maxn >= 40 {
+            r.urange(maxn * 3 / 4, maxn)
+        } else {
+            r.urange(0, maxn)
+        };
         let mut idset: BTreeSet<u32> = BTreeSet::new();
         while idset.len() < nrec {
             // deliberately overlapping numeric ids across kinds
